@@ -326,7 +326,14 @@ startConn:
 
 	group := ctxgroup.New(ctx)
 
-	group.Go(c.execLoop)
+	// Events are handled in the order they were received, so when the server
+	// explains itself with an ERROR before dropping the connection, that is
+	// the reason to report, not the read/write error which follows it.
+	var execErr error
+	group.Go(func(ctx context.Context) error {
+		execErr = c.execLoop(ctx)
+		return execErr
+	})
 	group.Go(c.readLoop)
 	group.Go(c.sendLoop)
 	group.Go(c.pingLoop)
@@ -364,6 +371,9 @@ startConn:
 
 	// Wait for the first error.
 	err := group.Wait()
+	if execErr != nil {
+		err = execErr
+	}
 	if err != nil {
 		c.debug.Printf("received error, beginning cleanup: %v", err)
 	} else {
